@@ -2029,16 +2029,27 @@ impl<T: PPGEvaluatorStrategy> PPGEvaluator<T> {
     }
 
     fn propagate_job_required(dag: &mut GraphType, jobs: &mut [NodeInfo], node_idx: NodeIndex) {
-        let upstreams: Vec<_> = dag
-            .neighbors_directed(node_idx, Direction::Incoming)
-            .collect();
-        for upstream_idx in upstreams {
-            dag.edge_weight_mut(upstream_idx, node_idx)
-                .unwrap()
-                .required = Required::Yes;
-            match jobs[upstream_idx].state {
-                JobState::Always(_) | JobState::Output(_) => {}
-                JobState::Ephemeral(_) => Self::propagate_job_required(dag, jobs, upstream_idx),
+        // walks up through ephemeral upstreams. Every job is visited once: layered ephemerals
+        // have exponentially many paths, and a chain of them is as deep as the graph.
+        let mut todo: Vec<NodeIndex> = vec![node_idx];
+        let mut seen: HashSet<NodeIndex> = HashSet::new();
+        seen.insert(node_idx);
+        while let Some(current_idx) = todo.pop() {
+            let upstreams: Vec<_> = dag
+                .neighbors_directed(current_idx, Direction::Incoming)
+                .collect();
+            for upstream_idx in upstreams {
+                dag.edge_weight_mut(upstream_idx, current_idx)
+                    .unwrap()
+                    .required = Required::Yes;
+                match jobs[upstream_idx].state {
+                    JobState::Always(_) | JobState::Output(_) => {}
+                    JobState::Ephemeral(_) => {
+                        if seen.insert(upstream_idx) {
+                            todo.push(upstream_idx);
+                        }
+                    }
+                }
             }
         }
     }
